@@ -239,6 +239,25 @@ def check(prog, run):
         lp = loops[0]
         it = ast.unparse(lp.iter)
         rev = it.endswith("[::-1]") or it.startswith("reversed(")
+        # the iterated collection is the full member list: the attribute __init__ binds to its *args (unfiltered)
+        base_expr = lp.iter
+        if isinstance(base_expr, ast.Subscript):
+            base_expr = base_expr.value
+        elif isinstance(base_expr, ast.Call) and base_expr.args:
+            base_expr = base_expr.args[0]
+        init = multi.methods.get("__init__")
+        full = set()
+        if init is not None and init.node.args.vararg is not None:
+            va = init.node.args.vararg.arg
+            for x in own_nodes(init.node):
+                if isinstance(x, ast.Assign) and isinstance(x.targets[0], ast.Attribute) and isinstance(x.value, (ast.Name, ast.Call)):
+                    src = x.value.args[0] if isinstance(x.value, ast.Call) and ast.unparse(x.value.func) in ("tuple", "list") and x.value.args else x.value
+                    if isinstance(src, ast.Name) and src.id == va:
+                        full.add("self.%s" % x.targets[0].attr)
+        if ast.unparse(base_expr) not in full:
+            run.report(r, "%s:MultiInstrumentation.%s:partial-members(%s)" % (INSTR, h, ast.unparse(base_expr)), m.where(lp),
+                       "%s iterates `%s`, which is not the full list of stacked instrumentations (%s): members left out of it never "
+                       "see this hook" % (h, ast.unparse(base_expr), ", ".join(sorted(full)) or "none found"))
         if h.endswith("_end") != rev:
             run.report(r, "%s:MultiInstrumentation.%s:direction" % (INSTR, h), m.where(lp),
                        "%s iterates the instrumentations %s" % (h, "in reverse" if rev else "forwards (end hooks must unwind in reverse)"))
